@@ -7,7 +7,7 @@ From Coq Require Import List NArith Permutation.
 From Coq Require Import ZArith.
 From XotV Require Import Model.Base Model.Zipper Model.Access Model.Store Model.Manip Spec.DocOrder Spec.Shape
                          Proofs.ZipperProofs Proofs.AccessProofs Proofs.StoreProofs Proofs.InvProofs Proofs.InvSteps
-                         Proofs.InvOps Proofs.InvHist Proofs.InvApi Spec.NoAdj Proofs.NoAdjOps Proofs.UnwrapEffect Proofs.NoAdjApi Proofs.BuilderSound Proofs.ParseCompose.
+                         Proofs.InvOps Proofs.InvHist Proofs.InvApi Spec.NoAdj Proofs.NoAdjOps Proofs.UnwrapEffect Proofs.ReplaceEffect Proofs.NoAdjApi Proofs.BuilderSound Proofs.ParseCompose.
 From XotV Require Import Model.Builder.
 From XotV Require Import Model.Unpretty Model.Interning Model.NsTools Model.Hist.
 Import ListNotations.
@@ -230,6 +230,30 @@ Print Assumptions C04_no_adjacent_text_api_history_partial.
 Example C04_plain_ops_are_all_but_replace :
   forall o, plain_op2 o = false -> (exists a b, o = OReplace a b) \/ o = OCons false.
 Proof. intros o H. destruct o; try discriminate H; [left; eauto|destruct b; [discriminate|right; reflexivity]]. Qed.
+
+(* replace too, except in one configuration: [plain_at st o] lets replace(a, b) through unless, in the store the call finds, [a]
+   stands between two text nodes and [b] is neither of them (Proofs/ReplaceEffect.v: otherwise either the detached node leaves
+   no text nodes touching and every later step of the call keeps the clause, or nothing is inserted and the final consolidation
+   merges the two).  PARTIAL in exactly that configuration, which stays with the structural oracle of the correspondence run. *)
+Theorem C04_no_adjacent_text_step_with_replace_partial :
+  forall st o, Good st -> cons st = true -> noadj st -> plain_at st o = true ->
+    noadj (fst (mstep st o)) /\ cons (fst (mstep st o)) = true.
+Proof. exact noadj_mstep3. Qed.
+Print Assumptions C04_no_adjacent_text_step_with_replace_partial.
+
+(* along histories: the condition on a replace is evaluated in the store that call finds ([run_ok]) *)
+Theorem C04_no_adjacent_text_history_with_replace_partial :
+  forall ops, run_ok init_state ops = true -> noadj (mfinal init_state ops) /\ cons (mfinal init_state ops) = true.
+Proof. intros ops Hp. exact (noadj_history3 ops init_state Good_init eq_refl eq_refl Hp). Qed.
+Print Assumptions C04_no_adjacent_text_history_with_replace_partial.
+
+(* a replace between two text nodes by one of them is in the theorem, and merges them; by a third node it is not *)
+Example C04_noadj_replace_example :
+  let ops := [ONewDoc; ONewEl 5; OAppend 0 1; ONewText [104]; OAppend 1 2; ONewEl 6; OAppend 1 3; ONewText [105]; OAppend 1 4] in
+  run_ok init_state (ops ++ [OReplace 3 2]) = true
+  /\ store (mfinal init_state (ops ++ [OReplace 3 2])) = FCons 0 VDocument (FCons 1 (VElement 5) (FCons 2 (VText [104; 105]) FNil FNil) FNil) FNil
+  /\ run_ok init_state (ops ++ [ONewEl 7; OReplace 3 5]) = false.
+Proof. vm_compute. repeat split. Qed.
 
 (* non-vacuity: a history in which text is appended next to text, moved between text nodes and a separating element is
    removed ends without adjacent text (the merges happen); the predicate does reject adjacent text; and with consolidation
